@@ -810,7 +810,7 @@ func main() {
 	for _, sc := range scs {
 		runScenario(o, sc, res, cases, o.Pick(24, 60), false)
 	}
-	res.ModelCases = cases.Len()
+	res.ModelCases = res.Distribution["model_crash_states"] // crash states compared with the model (grouped in one Coq case per scenario)
 	if err := cases.Write(o.Out); err != nil {
 		panic(err)
 	}
